@@ -110,7 +110,7 @@ CHECKS.update({
         design='5 C19', note=TB + 'depq.DEPQ (third party) modelled as a stable descending list with drop-last bounding; links are list order in the model and checked on the real objects by the oracle.',
         technique='Rocq proof by induction over operation sequences + operation-sequence correspondence'),
     'C01': dict(
-        text='Theorems over the reals, on the same generic model of the method as C02 instantiated with R. N = 2..5 (AGP/OptimalityBox.v): for ANY L-Lipschitz objective on ANY box with sides <= S, any density m >= 1, r > 1, eps: if the run through the evolvent stops by accuracy and '
+        text='Theorems over the reals, on the same generic model of the method as C02 instantiated with R, stated for Solve itself (C01_solve_*: a fresh solver whose answers are the objective at the trial points, Solve ends without exception with the accuracy test satisfied; the bound is for the RETURNED best value) and per step (C01_certificate_*, C01_reported_best_*). N = 2..5 (AGP/OptimalityBox.v): for ANY L-Lipschitz objective on ANY box with sides <= S, any density m >= 1, r > 1, eps: if the run through the evolvent stops by accuracy and '
              'r*M >= K_N*L*S then best - f(Y) < (r*M/2)*eps + L*S*2^-m*(sqrt(N+3)+sqrt(N)/2) for every Y of the box (covering argument in the Hoelder metric + Hoelder inequality, box containment and density of the evolvent images). N = 1 (AGP/Optimality.v): for ANY L-Lipschitz objective phi on the unit segment, '
              'any r > 1 and eps, if the run driven by phi stops by accuracy and r*M >= 2L for the estimate M in force when the last interval was selected, then best - min phi < (r*M/2)*eps; '
              'corollary for flat objectives (2L <= r) without any condition; per-interval lower bound from the characteristic. The literal reading with the FINAL M is refuted by a kernel-evaluated '
